@@ -261,6 +261,23 @@ Proof.
   - destruct (N s' S).
 Qed.
 
+Lemma reachable_steps cf s s' :
+  reachable cf s -> clos_refl_trans _ (step cf) s s' -> reachable cf s'.
+Proof.
+  intros R P. induction P as [a b S | a | a b c P1 IH1 P2 IH2]; auto.
+  eapply reachable_step; eauto.
+Qed.
+
+(** every maximal execution (one that cannot be continued) has ended in a final
+    state; with [step_wf] there are no others *)
+Theorem maximal_runs_end_final cf s s' :
+  buffered cf = true -> reachable cf s -> clos_refl_trans _ (step cf) s s' ->
+  (forall s'', ~ step cf s' s'') -> final cf s' = true.
+Proof.
+  intros B R P N. pose proof (reachable_steps _ _ _ R P) as R'.
+  destruct (progress cf s' B R') as [F | (s'' & S)]; auto. destruct (N s'' S).
+Qed.
+
 (** and when Close returns the goroutine is already past its only send *)
 Theorem closed_implies_exited cf s r :
   reachable cf s -> close_result s = Some r -> go_exited s = true.
